@@ -337,6 +337,9 @@ class MonitoredFocusList(MonitoredList[_T], typing.Generic[_T]):
             return focus
 
         focus = self._focus
+        if step < 0:
+            # a descending slice covers the same positions as this ascending one
+            start, stop, step = start + (num_removed - 1) * step, start + 1, -step
         if step == 1:
             if start + num_new_items <= focus < stop:
                 focus = stop
